@@ -99,7 +99,7 @@ pub fn profile(name: &str) -> Profile {
         "C18" => Profile { name: "C18", kinds: [1, 0, 1, 1, 0, 0, 0, 3, 10], w_token: 9, w_cause: 10, ..base },
         "C17" => Profile { name: "C17", faults: true, kinds: [1, 0, 1, 2, 0, 8, 0, 0, 0], adapters: 12, w_cause: 10, max_sources: 5, natural_faults: true, err_returns: true, ..base },
         "C11" => Profile { name: "C11", kinds: [3, 2, 3, 2, 0, 1, 0, 0, 0], w_dispatch: 12, w_misc: 5, run_bias: 5, ..base },
-        "C12" => Profile { name: "C12", scripted_faults: true, kinds: [2, 1, 8, 1, 2, 0, 0, 0, 0], w_dispatch: 10, w_advance: 5, w_cause: 3, ..base },
+        "C12" => Profile { name: "C12", scripted_faults: true, kinds: [2, 1, 8, 1, 2, 0, 0, 2, 0], w_dispatch: 10, w_advance: 5, w_cause: 3, ..base },
         "C13" => Profile { name: "C13", w_idle: 10, err_returns: true, ..base },
         "C15" => Profile { name: "C15", adapters: 3, faults: false, scripted_faults: true, natural_faults: true, err_returns: true, kinds: [3, 2, 3, 6, 0, 0, 0, 0, 2], ..base },
         "C14" => Profile { name: "C14", kinds: [2, 1, 2, 2, 8, 0, 0, 0, 0], w_token: 9, w_misc: 4, faults: true, scripted_faults: true, err_returns: true, ..base },
@@ -385,10 +385,10 @@ impl G {
         let dl = match self.rng.below(4) {
             0 => Deadline::In(self.rng.range(1, 40) * MS),
             1 => {
-                if self.rng.chance(2, 3) {
-                    Deadline::In(3_600_000 * MS)
-                } else {
-                    Deadline::In(self.far())
+                match self.rng.below(4) {
+                    0 | 1 => Deadline::In(3_600_000 * MS),
+                    2 => Deadline::In(self.far()),
+                    _ => Deadline::In(u64::MAX),
                 }
             }
             2 => Deadline::Immediate,
@@ -598,6 +598,36 @@ impl G {
                 return seq.into_iter().filter(|_| !self.rng.chance(1, 6)).collect();
             }
         }
+        if p.scripted_faults && p.err_returns && (self.srcs.len() as u64) < p.max_sources && self.rng.chance(1, 50) {
+            // a source whose callback asks for its own disable / update, then fails - and the
+            // (un)registration that request leads to fails as well: the dispatch reports the
+            // callback's error, the first one
+            let id = self.fresh();
+            self.srcs.push((id, KindTag::Generic, true));
+            let upd = self.rng.chance(1, 2);
+            let script = vec![CbEntry { ops: vec![if upd { Op::Update(id) } else { Op::Disable(id) }], ret: Ret::Err }];
+            return vec![
+                Op::InsertGeneric { id, fd: FdSpec::Sock, interest: 1, mode: 0, keep: true, script },
+                Op::FailNext { id, what: if upd { 2 } else { 3 }, nth: 0 },
+                Op::PeerWrite(id, 1),
+                Op::Dispatch(Timeout::Zero),
+            ];
+        }
+        if p.kinds[8] >= 5 && (self.srcs.len() as u64) + 1 < p.max_sources && self.rng.chance(1, 25) {
+            // a wrapper whose parent is disabled by another source's callback while the wrapper's
+            // own event is already in the batch, around a child that answers that event
+            let (a, t) = (self.fresh(), self.fresh());
+            self.srcs.push((a, KindTag::Ping, false));
+            self.srcs.push((t, KindTag::Transient, false));
+            let ret = *self.rng.pick(&[Ret::Disable, Ret::Remove, Ret::Remove, Ret::Continue, Ret::Reregister]);
+            return vec![
+                Op::InsertPing { id: a, script: vec![CbEntry { ops: vec![Op::Disable(t)], ret: Ret::Continue }] },
+                Op::InsertTransient { id: t, child: ChildSpec::Eager, from_default: false, script: vec![CbEntry { ops: vec![], ret }] },
+                Op::PeerWrite(t, 1),
+                Op::Ping(a),
+                Op::Dispatch(Timeout::Zero),
+            ];
+        }
         if p.adapters > 0 && !self.adapters.is_empty() && self.rng.chance(1, 40) {
             // a source the program keeps is handed an adapter which it drops inside one of its
             // own (un)registration calls, and goes through exactly that call: removed and
@@ -688,7 +718,7 @@ pub fn generate(profile_name: &str, seed: u64) -> Program {
     let sw = gen_swarm(&mut rng, &p);
     let mut g = G { rng, p: p.clone(), next_id: 0, srcs: vec![], idles: vec![], tasks: vec![], adapters: vec![], sigsrc: vec![], nsig: 4, sw };
     if p.signals > 0 {
-        g.nsig = *g.rng.pick(&[2u64, 4, 4, 10, 10]);
+        g.nsig = *g.rng.pick(&[2u64, 4, 4, 10, 11, 11]);
     }
     let mut n = g.rng.range(p.steps.0, p.steps.1);
     if g.rng.chance(1, 12) {
